@@ -94,6 +94,22 @@ fn compare(text: &str, st: &mut Stats, well_formed: bool) -> Vec<Viol> {
                 format!("text {:?}: lossless ok={} lossy ok={} ({:?})", text, ll.is_ok(), ly.is_ok(), ly.as_ref().err().map(|e| e.to_string())),
             ));
         }
+        // the lossy reader over bytes that arrive in short reads gives what it gives for the text; a failing reader an error
+        let chunks: &[usize] = if text.is_ascii() { &[1] } else { &[1, 2, 3] };
+        for k in chunks {
+            let via = lossy::Deb822::from_reader(crate::strings::ChunkReader::new(text.as_bytes(), *k));
+            let same = match (&via, &ly) {
+                (Ok(a), Ok(b)) => a == b,
+                (Err(_), Err(_)) => true,
+                _ => false,
+            };
+            if !same {
+                out.push(viol("lossy-reader-agrees", format!("text {:?}: from_reader over {}-byte reads gives {:?}, from_str {:?}", text, k, via.as_ref().map_err(|e| e.to_string()), ly.as_ref().map_err(|e| e.to_string()))));
+            }
+        }
+        if !text.is_empty() && lossy::Deb822::from_reader(crate::strings::ChunkReader::failing(text.as_bytes(), 2, text.len() / 2)).is_ok() {
+            out.push(viol("lossy-reader-agrees", format!("text {:?}: a reader failing half-way yields a document", text)));
+        }
         if let (Ok(a), Ok(b)) = (&ll, &ly) {
             let (ca, cb) = (lossless_content(a), lossy_content(b));
             if ca != cb {
